@@ -57,20 +57,42 @@ def run(ctx):
     nt = model.nodes
     # map_sum: every child, every entry
     mem = model.lookup(cc, "map_sum")
-    ok = False
+    REC = ("rec", ("elem", ("field", "children")), True, ())
+    saw = set()
+    ok = True
     for ps in handler_summaries(model, nt.get("Sum"), mem.node):
-        sd = ps.env.get("stride_dicts")
-        if sd and sd[0] == "seq" and sd[3] == ("field", "children") and not sd[4] \
-                and sd[2] == ("rec", ("elem", ("field", "children")), True, ()):
-            ok = True
-    src = ast.unparse(mem.node).replace(" ", "")
-    ok = ok and "forstride_dictinstride_dicts:" in src and \
-        "forvar,strideinstride_dict.items():" in src and \
-        "result[var]+=stride" in src and "result[var]=stride" in src
+        if ps.term != "return":
+            continue
+        rv = ps.retval
+        if rv == ("litdict", (), ()):
+            continue
+        if not (rv[0] == "dict" and rv[1] == ("key", REC)
+                and rv[3] == ("items", REC)):
+            ok = False
+            continue
+        present = None
+        for _, pol, v in ps.conds:
+            if isinstance(v, tuple) and v[0] == "compare" and v[1] in (
+                    ("In",), ("NotIn",)) and v[2] == ("key", REC):
+                present = pol if v[1] == ("In",) else not pol
+        val = rv[2]
+        if present is True:
+            saw.add("add")
+            ok = ok and val[0] == "binop" and val[1] == "Add" and \
+                ("val", REC) in (val[2], val[3])
+        elif present is False:
+            saw.add("new")
+            ok = ok and val == ("val", REC)
+        else:
+            # e.g. result[var] = result.get(var, 0) + stride
+            saw.update({"add", "new"})
+            ok = ok and val[0] == "binop" and val[1] == "Add" and \
+                ("val", REC) in (val[2], val[3])
+    ok = ok and saw == {"add", "new"}
     ctx.ob("K/CoefficientCollector/map_sum", ok, where(mem),
            "every entry of every child's stride dict is accumulated" if ok else
            "CoefficientCollector.map_sum does not accumulate every child's "
-           "coefficients")
+           "coefficients (a repeated key must be added to, a new key stored)")
 
     # map_product: raise when a second factor carries variables
     mem = model.lookup(cc, "map_product")
@@ -119,10 +141,25 @@ def run(ctx):
                f"{' / '.join(guarded)} carries a variable: non-affine input "
                "yields coefficients")
     mem = model.lookup(cc, "map_quotient")
-    src = ast.unparse(mem.node).replace(" ", "")
-    ok = "d_num=self.rec(expr.numerator)" in src and \
-        "d_den=self.rec(expr.denominator)" in src and \
-        "d_num[k]*=Quotient(1,val)" in src and "val=d_den[1]" in src
+    NUM = ("rec", ("field", "numerator"), True, ())
+    DEN = ("rec", ("field", "denominator"), True, ())
+    ok = False
+    for ps in handler_summaries(model, nt.get("Quotient"), mem.node):
+        if ps.term != "return":
+            continue
+        rv = ps.retval
+        if rv[0] == "dictextend" and rv[1] == NUM and rv[2] == ("key", NUM) \
+                and rv[4] in (("keys", NUM), ("items", NUM)):
+            val = rv[3]
+            den1 = ("index", DEN, 1)
+            ok = (val[0] == "binop" and val[1] == "Mult" and val[3] == (
+                "call", "Quotient", (("const", 1), den1), ())) or (
+                val[0] == "binop" and val[1] == "Div" and val[3] == den1)
+        elif rv[0] == "dict" and rv[3] in (("items", NUM),):
+            val = rv[2]
+            den1 = ("index", DEN, 1)
+            ok = val[0] == "binop" and val[1] in ("Mult", "Div") and contains(
+                val, lambda t: t == den1)
     ctx.ob("K/CoefficientCollector/map_quotient/scales-all", ok, where(mem),
            "every numerator coefficient is divided by the constant denominator"
            if ok else "map_quotient does not scale every numerator coefficient by "
